@@ -1,9 +1,13 @@
 package core
 
 import (
+	"go/ast"
+	"go/parser"
 	"go/token"
+	"go/types"
 
 	"golang.org/x/tools/go/ssa"
+	"golang.org/x/tools/go/ssa/ssautil"
 )
 
 // ---------------------------------------------------------------- reaching stores of local cells
@@ -431,4 +435,18 @@ func AssertOf(v ssa.Value) *ssa.TypeAssert {
 		}
 	}
 	return nil
+}
+
+// BuildSnippet type-checks and builds SSA for a self-contained source file without imports; used by
+// rules whose expected instance count on the library is zero to prove on every run that the matcher
+// still recognises a positive and a negative example.
+func BuildSnippet(src string) (*ssa.Package, error) {
+	fset := token.NewFileSet()
+	file, err := parser.ParseFile(fset, "snippet.go", src, 0)
+	if err != nil {
+		return nil, err
+	}
+	pkg := types.NewPackage("snippet", "snippet")
+	sp, _, err := ssautil.BuildPackage(&types.Config{}, fset, pkg, []*ast.File{file}, 0)
+	return sp, err
 }
